@@ -175,6 +175,8 @@ class InfraError(Exception):
 
 class Report:
     MAX_KEEP = 40
+    MAX_PER_SHAPE = 4
+    MAX_TOTAL = 400
 
     def __init__(self):
         self.evaluations = 0
@@ -187,6 +189,7 @@ class Report:
         self.n_violations = 0
         self.compared = 0  # individual model-vs-implementation comparisons made
         self.notes = []
+        self._per_shape = {}
 
     # -- recording -------------------------------------------------------------------------
     def case(self, case, nontrivial_key=None, sample=None):
@@ -211,11 +214,15 @@ class Report:
             )
 
     def violation(self, what, case, signature=None, detail=None):
+        """Keep at most MAX_PER_SHAPE violations per distinct (what, signature) so that many hits of one
+        shape (e.g. a known finding) can never crowd a differently-shaped violation out of the kept list."""
         self.n_violations += 1
-        if len(self.violations) < self.MAX_KEEP:
-            self.violations.append(
-                {"what": what, "case": canon(case), "signature": canon(signature or {}), "detail": canon(detail)}
-            )
+        sig = canon(signature or {})
+        key = digest([what, sig])
+        k = self._per_shape.get(key, 0)
+        self._per_shape[key] = k + 1
+        if k < self.MAX_PER_SHAPE and len(self.violations) < self.MAX_TOTAL:
+            self.violations.append({"what": what, "case": canon(case), "signature": sig, "detail": canon(detail)})
 
     def note(self, s):
         if len(self.notes) < 20:
